@@ -267,6 +267,36 @@ func walkPtrs(c *ucfg.Config, path []string, depth int, out map[*ucfg.Config][]s
 	}
 }
 
+// badUp lists (by dotted access path) the sub-configs stored below c whose Parent() is not the config holding them.
+func badUp(c *ucfg.Config, pre string, depth int, out *[]string) {
+	if depth == 0 {
+		return
+	}
+	visit := func(name string, idx int, label string) {
+		c1, e1 := c.Child(name, idx)
+		c2, e2 := c.Child(name, idx)
+		if e1 != nil || e2 != nil || c1 != c2 { // not a stored sub-config
+			return
+		}
+		p := label
+		if pre != "" {
+			p = pre + "." + label
+		}
+		if c1.Parent() != c {
+			*out = append(*out, p)
+		}
+		badUp(c1, p, depth-1, out)
+	}
+	fields := c.GetFields()
+	for _, k := range fields {
+		visit(k, -1, k)
+	}
+	n, _ := c.CountField("")
+	for i := 0; i < n-len(fields); i++ {
+		visit("", i, strconv.Itoa(i))
+	}
+}
+
 type handleProj struct {
 	Obs    map[string]interface{} `json:"obs"`
 	Path   string                 `json:"path"`
@@ -277,6 +307,7 @@ type handleProj struct {
 	At     [][][]string           `json:"at"`
 	Sweep  map[string]string      `json:"sweep"`
 	Count  map[string]int         `json:"count"`
+	Up     []string               `json:"up"` // sub-configs whose Parent() is not the config that holds them
 }
 
 type stateProj struct {
@@ -327,7 +358,7 @@ func projectStore(hs []*ucfg.Config, addrs map[string]addr, comps map[string]boo
 	sp := stateProj{}
 	sep := ucfg.PathSep(".")
 	for _, c := range hs {
-		hp := handleProj{Obs: map[string]interface{}{}, Flat: []string{}, At: [][][]string{}, Sweep: map[string]string{}, Count: map[string]int{}}
+		hp := handleProj{Obs: map[string]interface{}{}, Flat: []string{}, At: [][][]string{}, Sweep: map[string]string{}, Count: map[string]int{}, Up: []string{}}
 		if comps["obs"] {
 			m, l, err := observeTop(c, sep)
 			if err != nil {
@@ -365,6 +396,10 @@ func projectStore(hs []*ucfg.Config, addrs map[string]addr, comps map[string]boo
 				}
 				hp.At = append(hp.At, ps)
 			}
+		}
+		if comps["up"] {
+			badUp(c, "", 4, &hp.Up)
+			sort.Strings(hp.Up)
 		}
 		if comps["sweep"] {
 			hp.Sweep = map[string]string{}
@@ -413,6 +448,7 @@ type expHandle struct {
 	At     [][][]string    `json:"at"`
 	Sweep  json.RawMessage `json:"sweep"`
 	Count  json.RawMessage `json:"count"`
+	Up     []string        `json:"up"`
 }
 
 type expState struct {
@@ -497,6 +533,9 @@ func diffStore(res string, got stateProj, exp *expOutcome, comps map[string]bool
 		}
 		if comps["flat"] && !sameSet(g.Flat, e.Flat) {
 			return "flat"
+		}
+		if comps["up"] && !sameSet(g.Up, e.Up) {
+			return "up"
 		}
 		if comps["at"] {
 			if len(g.At) != len(e.At) {
